@@ -603,7 +603,7 @@ class _ClientSock(object):
 
 def _retry_name(r):
     if isinstance(r, RetryMode):
-        return r.name
+        r = r.value
     return {0: "NONE", 1: "BEST_EFFORT", -1: "RETRY_ON_TIMEOUT"}.get(r, str(r))
 
 
